@@ -4,15 +4,23 @@ import Driver.Common
 /-! line protocol of the `views` family (same text as harness/drv_views.cpp)
 
   mode checked|unchecked          which build is modelled (ADEPT_BOUNDS_CHECKING)
-  parent rm|cm d0 d1 …            fresh parent array, row- or column-major, current view := whole parent
-  slice A0 A1 …                   A = i:E | r:E,E | s:E,E,S | _      E = k | eK (= end - K)
+  parent rm|cm d0 d1 …            fresh parent Array<r,int> (r ≤ 6), row- or column-major, current view := whole parent
+  aparent rm|cm d0 d1 …           the same for an ACTIVE parent Array<r,double,true> (r ≤ 3); the views stay active
+  fparent d0 d1 …                 a FixedArray<int,false,d0,…> parent (always row-major); the first successful
+                                  view-forming operation is executed by FixedArray's own member and yields an Array
+  slice A0 A1 …                   A = i:E | r:E,E | s:E,E,E | _
+                                  E = k | eK (= end - K) | end | (E+E) | (E-E) | (E*E) | (E/E) | (E>E) (max) | (E<E) (min)
+  every view-forming op and `ix` may carry the prefix `c` (cslice, csubset, cidx, cT, csoftlink, cix): the member
+  is then called on a `const` reference (the const overloads have their own copy of the code; same semantics)
   subset E E E E …                begin/end per dimension
   idx E                           operator[]
   T | permute p0 p1 … | diag k | subdiag b e | reshape d0 d1 … | softlink
   contig                          is_contiguous() of the current view (state unchanged)
   ix S0 S1 …                      integer-vector indexing A(S0,S1,…) of the current view (state unchanged)
-                                  S = i:E | r:E,E | s:E,E,S | _ | v:a,b,… | x:a,b,… | w:K0,K1,…
-                                  (v: intVector, x: the expression tmp+2 with these values, w: end - tmp with tmp = K's)
+                                  S = i:E | r:E,E | s:E,E,E | _ | v:a,b,… | x:a,b,… | w:K0,K1,… | u:VE:a,b,…
+                                  (v: intVector, x: the expression tmp+2 with these values, w: end - tmp with tmp = K's,
+                                   u: the integer expression VE over the intVector `v` holding a,b,…, e.g. u:(9-v):1,3,0)
+  an index expression that divides by zero for the dimension it indexes: `err undefined` (never generated)
 
   answer to a view-forming op:  `ok r=… d=… s=… o=… e=… w=…`  (rank, extents, offsets, data()-parent,
   elements in index order, parent cells changed by writing -(j+1) through element j)  or  `err <class>`.
@@ -28,9 +36,67 @@ structure St where
   checked : Bool := false
   vol : Nat := 0
   cur : Option View := none
+  /-- 0: passive `Array`, 1: active `Array`, 2: the `FixedArray` parent itself -/
+  kind : Nat := 0
+
+def opOfChar : Char → Option BinOp
+  | '+' => some .add | '-' => some .sub | '*' => some .mul | '/' => some .div
+  | '>' => some .max | '<' => some .min | _ => none
+
+/-- generic expression tree read from the text (leaves: integer, `end`, `v`) -/
+inductive PExpr
+  | lit (k : Int) | last | idx | bin (op : BinOp) (l r : PExpr)
+
+def takeDigits : List Char → List Char × List Char
+  | c :: cs => if c.isDigit then let (d, r) := takeDigits cs; (c :: d, r) else ([], c :: cs)
+  | [] => ([], [])
+
+/-- operand := INT | `end` | `v` | `(` operand OP operand `)`; fuel bounds the nesting depth -/
+def parseOperand : Nat → List Char → Option (PExpr × List Char)
+  | 0, _ => none
+  | fuel + 1, cs =>
+    match cs with
+    | '(' :: r =>
+      match parseOperand fuel r with
+      | some (l, o :: r2) =>
+        match opOfChar o, parseOperand fuel r2 with
+        | some op, some (rr, ')' :: r3) => some (.bin op l rr, r3)
+        | _, _ => none
+      | _ => none
+    | 'e' :: 'n' :: 'd' :: r => some (.last, r)
+    | 'v' :: r => some (.idx, r)
+    | '-' :: r =>
+      let (d, r2) := takeDigits r
+      if d.isEmpty then none else (String.ofList d).toInt?.map fun k => (.lit (-k), r2)
+    | _ =>
+      let (d, r2) := takeDigits cs
+      if d.isEmpty then none else (String.ofList d).toInt?.map fun k => (.lit k, r2)
+
+def parsePExpr (t : String) : Option PExpr :=
+  match parseOperand 12 t.toList with
+  | some (e, []) => some e
+  | _ => none
+
+def PExpr.toEnd : PExpr → Option EndExpr
+  | .lit k => some (.lit k)
+  | .last => some .last
+  | .idx => none
+  | .bin op l r => do let l ← l.toEnd; let r ← r.toEnd; some (.bin op l r)
+
+def PExpr.toVec : PExpr → VExpr
+  | .lit k => .lit k
+  | .last => .last
+  | .idx => .idx
+  | .bin op l r => .bin op l.toVec r.toVec
+
+def PExpr.hasIdx : PExpr → Bool
+  | .idx => true
+  | .bin _ l r => l.hasIdx || r.hasIdx
+  | _ => false
 
 def parseEnd (t : String) : Option EndExpr :=
-  if t.startsWith "e" then (t.drop 1).toString.toInt?.map EndExpr.fromEnd
+  if t.startsWith "(" || t = "end" then (parsePExpr t).bind PExpr.toEnd
+  else if t.startsWith "e" then (t.drop 1).toString.toInt?.map EndExpr.fromEnd
   else t.toInt?.map EndExpr.lit
 
 def parseIx (t : String) : Option Ix :=
@@ -42,7 +108,7 @@ def parseIx (t : String) : Option Ix :=
     | _ => none
   else if t.startsWith "s:" then
     match (t.drop 2).toString.splitOn "," with
-    | [b, e, s] => do let b ← parseEnd b; let e ← parseEnd e; let s ← s.toInt?; some (Ix.stride b e s)
+    | [b, e, s] => do let b ← parseEnd b; let e ← parseEnd e; let s ← parseEnd s; some (Ix.stride b e s)
     | _ => none
   else none
 
@@ -91,10 +157,18 @@ def parseSel (t : String) : Option (Sel × Char) :=
   if t.startsWith "v:" then (entries (t.drop 2).toString).map fun l => (Sel.vec (l.map EndExpr.lit), 'V')
   else if t.startsWith "x:" then (entries (t.drop 2).toString).map fun l => (Sel.vec (l.map EndExpr.lit), 'X')
   else if t.startsWith "w:" then (entries (t.drop 2).toString).map fun l => (Sel.vec (l.map EndExpr.fromEnd), 'W')
+  else if t.startsWith "u:" then
+    match (t.drop 2).toString.splitOn ":" with
+    | [ve, ents] =>
+      match parsePExpr ve, entries ents with
+      | some pe, some l => if pe.hasIdx then some (Sel.vec (pe.toVec.entries l), 'U') else none
+      | _, _ => none
+    | _ => none
   else match parseIx t with
     | some (.at (.lit k)) => some (Sel.at (.lit k), 'I')
     | some (.at (.fromEnd k)) => some (Sel.at (.fromEnd k), 'E')
-    | some (.range b e) => some (Sel.range b e 1, 'R')
+    | some (.at e) => some (Sel.at e, 'Y')
+    | some (.range b e) => some (Sel.range b e (.lit 1), 'R')
     | some (.stride b e s) => some (Sel.range b e s, 'R')
     | some .all => some (Sel.all, 'A')
     | none => none
@@ -104,12 +178,13 @@ def ixMenu4 : List String :=
   ["IEVA", "EIEV", "VIEI", "AVIE", "IVRE", "VVVV", "EAVV", "RVAI", "IIEV", "VEEI", "AIVE", "VRAV"]
 
 def ixCompiled (letters : List Char) : Bool :=
-  let isVec (c : Char) : Bool := c = 'V' || c = 'X' || c = 'W'
+  let isVec (c : Char) : Bool := c = 'V' || c = 'X' || c = 'W' || c = 'U'
   letters.any isVec &&
   match letters.length with
   | 1 => true
   | 2 => true
-  | 3 => letters.all fun c => c ≠ 'X' && c ≠ 'W'
+  | 3 => (letters.all fun c => c = 'I' || c = 'E' || c = 'R' || c = 'A' || c = 'V') ||
+         ((letters.filter (· = 'U')).length = 1 && letters.all fun c => c = 'I' || c = 'E' || c = 'U')
   | 4 => ixMenu4.contains (String.ofList letters)
   | _ => false
 
@@ -126,8 +201,10 @@ def describeIx (checked : Bool) (iv : IView) : String :=
   let (z, ze) := ixStores checked iv (List.replicate n (-7))
   s!"ok r={iv.dims.length} d={joinInts (iv.dims.map Int.ofNat)} e={e} w={showStores w we} z={showStores z ze}"
 
-/-- calls that do not exist in the C++ for the current rank (the harness answers `bad-op`) -/
-def compiles (v : View) : Op → Bool
+/-- calls that do not exist in the C++ for the current object (the harness answers `bad-op`).
+    `kind` 0: passive `Array` (ranks ≤ 6 are driven), 1: active `Array` (ranks ≤ 3 are driven),
+    2: the `FixedArray` parent (no `reshape`, no `soft_link`) -/
+def compiles (kind : Nat) (v : View) : Op → Bool
   | .slice a => a.length = v.dims.length
   | .subset be => be.length = v.dims.length
   | .sub1 _ => v.dims.length ≥ 1
@@ -135,8 +212,20 @@ def compiles (v : View) : Op → Bool
   | .permute p => p.length = v.dims.length ∧ v.dims.length ≥ 1
   | .diag _ => v.dims.length = 2
   | .subdiag _ _ => v.dims.length = 2
-  | .reshape nd => v.dims.length = 1 ∧ nd.length ≤ 5
-  | .softLink => v.dims.length ≥ 1
+  | .reshape nd => v.dims.length = 1 ∧ kind ≠ 2 ∧ nd.length ≤ (if kind = 1 then 3 else 6)
+  | .softLink => v.dims.length ≥ 1 ∧ kind ≠ 2
+
+/-- the members that have a `const` overload -/
+def hasConst : Op → Bool
+  | .slice _ | .subset _ | .sub1 _ | .T | .softLink => true
+  | _ => false
+
+/-- the `FixedArray` parents compiled into the harness -/
+def fixedMenu : List (List Nat) := [[4], [3, 4], [3, 3], [2, 3, 4]]
+
+def freshParent (s : St) (kind : Nat) (rowMajor : Bool) (dims : List Nat) : St × String :=
+  let v := fresh rowMajor dims
+  ({ s with vol := dims.foldl (· * ·) 1, cur := some v, kind := kind }, describe v)
 
 def step (s : St) (ws : List String) : St × String :=
   match ws with
@@ -145,33 +234,49 @@ def step (s : St) (ws : List String) : St × String :=
   | "parent" :: order :: ds =>
     match ds.mapM String.toNat? with
     | some dims =>
-      if (order ≠ "rm" ∧ order ≠ "cm") ∨ dims.isEmpty ∨ dims.length > 5 ∨ dims.any (· == 0) then (s, "bad-op") else
-      let v := fresh (order = "rm") dims
-      ({ s with vol := dims.foldl (· * ·) 1, cur := some v }, describe v)
+      if (order ≠ "rm" ∧ order ≠ "cm") ∨ dims.isEmpty ∨ dims.length > 6 ∨ dims.any (· == 0) then (s, "bad-op") else
+      freshParent s 0 (order = "rm") dims
+    | none => (s, "bad-op")
+  | "aparent" :: order :: ds =>
+    match ds.mapM String.toNat? with
+    | some dims =>
+      if (order ≠ "rm" ∧ order ≠ "cm") ∨ dims.isEmpty ∨ dims.length > 3 ∨ dims.any (· == 0) then (s, "bad-op") else
+      freshParent s 1 (order = "rm") dims
+    | none => (s, "bad-op")
+  | "fparent" :: ds =>
+    match ds.mapM String.toNat? with
+    | some dims => if fixedMenu.contains dims then freshParent s 2 true dims else (s, "bad-op")
     | none => (s, "bad-op")
   | ["contig"] =>
     match s.cur with
-    | some v => if v.dims.isEmpty then (s, "bad-op") else (s, s!"contig={if isContiguous v then 1 else 0}")
+    | some v => if v.dims.isEmpty ∨ s.kind = 2 then (s, "bad-op") else (s, s!"contig={if isContiguous v then 1 else 0}")
     | none => (s, "bad-op")
-  | "ix" :: args =>
-    match s.cur, args.mapM parseSel with
-    | some v, some sl =>
-      if sl.length ≠ v.dims.length ∨ ¬ ixCompiled (sl.map (·.2)) then (s, "bad-op") else
-      match indexed v (sl.map (·.1)) s.checked with
-      | .ok iv => (s, describeIx s.checked iv)
-      | .error .bad_rank => (s, "bad-op")
-      | .error e => (s, "err " ++ e.name)
-    | _, _ => (s, "bad-op")
-  | _ =>
-    match s.cur, parseOp ws with
+  | ixw :: args =>
+    if ixw = "ix" ∨ ixw = "cix" then
+      match s.cur, args.mapM parseSel with
+      | some v, some sl =>
+        if s.kind ≠ 0 ∨ sl.length ≠ v.dims.length ∨ ¬ ixCompiled (sl.map (·.2)) then (s, "bad-op") else
+        if ¬ selsDefined v.dims (sl.map (·.1)) then (s, "err undefined") else
+        match indexed v (sl.map (·.1)) s.checked with
+        | .ok iv => (s, describeIx s.checked iv)
+        | .error .bad_rank => (s, "bad-op")
+        | .error e => (s, "err " ++ e.name)
+      | _, _ => (s, "bad-op")
+    else
+    -- a leading `c` selects the const overload of the member: same semantics
+    let (isConst, ws') :=
+      if ixw.startsWith "c" ∧ ixw ≠ "contig" then (true, (ixw.drop 1).toString :: args) else (false, ws)
+    match s.cur, parseOp ws' with
     | some v, some op =>
-      if ¬ compiles v op then (s, "bad-op") else
+      if ¬ compiles s.kind v op ∨ (isConst ∧ ¬ hasConst op) then (s, "bad-op") else
+      if ¬ op.defined v then (s, "err undefined") else
       match op, v.dims with
       | .diag _, [0, _] => ({ s with cur := none }, "ok null")
       | _, _ =>
       match apply s.checked v op with
-      | .ok w => ({ s with cur := some w }, describe w)
+      | .ok w => ({ s with cur := some w, kind := if s.kind = 2 then 0 else s.kind }, describe w)
       | .error e => (s, "err " ++ e.name)
     | _, _ => (s, "bad-op")
+  | [] => (s, "bad-op")
 
 end ViewsDrv
